@@ -287,15 +287,19 @@ impl Oplog {
     ) -> Result<Box<[StoreInfo]>, HypercoreError> {
         let (new_header_bits, infos_to_flush) = if clear_traces {
             // When clearing traces, both slots need to be cleared, hence
-            // do this twice, but for the first time, ignore the truncate
-            // store info, to end up with three StoreInfos.
+            // do this twice, but for the second time, ignore the truncate
+            // store info, to end up with three StoreInfos. The truncate has
+            // to come between the two header writes: the first write makes
+            // the pending entries stale (their header bit is not current any
+            // more), the second one makes that bit current again, so they
+            // must be gone by then or a crash would replay them on top of a
+            // header that already contains them.
             let (new_header_bits, infos_to_flush) =
                 Self::insert_header(header, 0, self.header_bits, clear_traces)?;
-            let mut combined_infos_to_flush: Vec<StoreInfo> =
-                infos_to_flush.into_vec().drain(0..1).collect();
+            let mut combined_infos_to_flush: Vec<StoreInfo> = infos_to_flush.into_vec();
             let (new_header_bits, infos_to_flush) =
                 Self::insert_header(header, 0, new_header_bits, clear_traces)?;
-            combined_infos_to_flush.extend(infos_to_flush.into_vec());
+            combined_infos_to_flush.extend(infos_to_flush.into_vec().drain(0..1));
             (new_header_bits, combined_infos_to_flush.into_boxed_slice())
         } else {
             Self::insert_header(header, 0, self.header_bits, clear_traces)?
